@@ -40,6 +40,8 @@ EXPLANATION = (
     "R2 (classification): detect_change_type's AST is evaluated on every ordered pair of versions with release length 1..4 over {0,1} and "
     "pre in {final, rc1, rc2} (8100 pairs, exhaustive for that domain): result 'none' iff the new version is not greater under the PEP 440 "
     "order, else the name of the first of the three leading components that differs. "
+    "Both interpreters follow module-level helper functions the three functions call, and a local list grown by append/extend in a loop (the statement form of a generator); "
+    "any other in-place change of a modelled sequence is refused (analysis error), never ignored. "
     "Not decided: packaging.Version parsing/normalisation (modelled: release tuple, pre label in a/b/rc, trailing zeros insignificant for "
     "ordering), epochs/post/dev/local segments (outside the quantifier), the classification when only a 4th component or only the pre-release "
     "grew (the statement does not define it; reported as an observation); is_rc_version (not part of the statement, planned R3 dropped)."
@@ -71,6 +73,80 @@ class _SI(SInterp):
                 return False
         return super()._is_stringy(e, st)
 
+    # in-place growth of a local list (`parts = []` … `for x in v.release: parts.append(str(x))` — the statement form of
+    # the generator `".".join(str(x) for x in v.release)`).  The base interpreter evaluates an unknown method call to UNKNOWN
+    # and leaves the receiver untouched, which would silently read the list as still empty.  Here the local is re-bound to the
+    # grown list (states are persistent, so a fresh list per state); any in-place change of a modelled list / sequence that
+    # is not reproduced exactly is refused (AnchorError through Unsupported), never ignored.
+    _LIST_MUTATORS = {"append", "extend", "insert", "remove", "pop", "clear", "sort", "reverse", "__setitem__", "__delitem__", "__iadd__"}
+
+    def e_Call(self, e, st):
+        f = e.func
+        if isinstance(f, ast.Attribute) and isinstance(f.value, ast.Name) and f.attr in self._LIST_MUTATORS and not e.keywords:
+            cur = st.env.get(f.value.id)
+            if isinstance(cur, (list, ASeq)):
+                if not isinstance(cur, list) or f.attr not in ("append", "extend") or len(e.args) != 1:
+                    raise Unsupported(f"in-place `{f.attr}` on the local sequence `{f.value.id}` is not modelled")
+                out = []
+                for v, s in self.eval(e.args[0], st):
+                    now = s.env.get(f.value.id)
+                    if not isinstance(now, list):
+                        raise Unsupported(f"`{f.value.id}` changes while the argument of `{f.attr}` is evaluated")
+                    if f.attr == "append":
+                        grown = now + [v]
+                    elif isinstance(v, (list, tuple)):
+                        grown = now + list(v)
+                    else:
+                        raise Unsupported(f"`{f.value.id}.extend` with a sequence of unknown length")
+                    out.append((None, self._bind(s, f.value.id, grown)))
+                return out
+        return super().e_Call(e, st)
+
+    def exec_stmt(self, s, states):
+        # a store / delete through a subscript of a modelled local list is an in-place change too: refuse rather than ignore
+        if isinstance(s, (ast.Assign, ast.AugAssign, ast.Delete)):
+            tg = s.targets if isinstance(s, (ast.Assign, ast.Delete)) else [s.target]
+            for t in tg:
+                for x in ast.walk(t):
+                    if isinstance(x, ast.Subscript) and isinstance(x.value, ast.Name) and any(isinstance(st.env.get(x.value.id), (list, ASeq)) for st in states):
+                        raise Unsupported(f"in-place store into the local sequence `{x.value.id}` is not modelled")
+        # `a, b = <None>`: the program raises TypeError on that path (an inverted `pre is None` test that kept its arms);
+        # recorded as an exception of the converter instead of "construct not modelled"
+        if isinstance(s, ast.Assign) and len(s.targets) == 1 and isinstance(s.targets[0], (ast.Tuple, ast.List)):
+            from .c32 import Flow
+            flow = Flow()
+            for st in states:
+                for v, st2 in self.eval_forking(s.value, st):
+                    if v is None:
+                        flow.exc.append(("TypeError", st2, s))
+                    else:
+                        flow.normal.append(self.assign(s.targets[0], v, st2))
+            return flow
+        return super().exec_stmt(s, states)
+
+
+def _reachable_helpers(funcs: dict[str, ast.AST], roots: list[ast.AST]) -> list[ast.AST]:
+    """Module-level functions called (transitively) from `roots` by bare name: a refactor that extracts a helper keeps the
+    converters / the classifier evaluable whether or not the shared inliner folded the helper back."""
+    out: list[ast.AST] = []
+    todo = list(roots)
+    while todo:
+        f = todo.pop()
+        for c in ast.walk(f):
+            if isinstance(c, ast.Call) and isinstance(c.func, ast.Name) and c.func.id in funcs:
+                g = funcs[c.func.id]
+                if g not in out and g not in roots:
+                    out.append(g)
+                    todo.append(g)
+    return out
+
+
+def _bind_helpers(env: dict, funcs: dict[str, ast.AST], roots: list[ast.AST]) -> dict:
+    """absint closures for the helpers reachable from `roots` (they see the same globals)."""
+    for g in _reachable_helpers(funcs, roots):
+        env[g.name] = ("__fn__", g, env)
+    return env
+
 
 class _Sym:
     def __init__(self, funcs: dict[str, ast.AST], consts: dict[str, ast.AST]):
@@ -79,7 +155,8 @@ class _Sym:
                 raise AnchorError(f"function `{f}` not found")
         self.p2s, self.s2p = funcs[P2S], funcs[S2P]
         self.consts = consts
-        nodes = [self.p2s, self.s2p]
+        self.funcs = funcs
+        nodes = [self.p2s, self.s2p] + _reachable_helpers(funcs, [self.p2s, self.s2p])
         used = {n.id for f in nodes for n in ast.walk(f) if isinstance(n, ast.Name)}
         cnodes = [consts[k] for k in used if k in consts]
         singles, sets = collect_literals(nodes + cnodes)
@@ -191,7 +268,7 @@ class _Sym:
     def run(self, fn: ast.AST, arg: object, n: int | None, pre: bool | None) -> tuple[DFA, list[str]]:
         """(language of returned strings, names of exceptions that can be raised)"""
         raises: list = []
-        ip = _SI(self.A, {}, self.consts, self._hooks(n, pre, raises))
+        ip = _SI(self.A, {k: f for k, f in self.funcs.items() if f is not fn}, self.consts, self._hooks(n, pre, raises))
         params = [a.arg for a in fn.args.args]
         try:
             rets = ip.call_function(fn, {params[0]: arg})
@@ -249,7 +326,7 @@ class _V(Record):
         return ".".join(map(str, self.release)) + ("" if self.pre is None else f"{self.pre[0]}{self.pre[1]}")
 
 
-def _interp(consts: dict[str, ast.AST]) -> Interp:
+def _interp(consts: dict[str, ast.AST], funcs: dict[str, ast.AST] | None = None) -> Interp:
     """absint interpreter whose globals hold the module constants the converters use (sets, compiled regex)."""
     env: dict = {"map": map}
 
@@ -269,6 +346,8 @@ def _interp(consts: dict[str, ast.AST]) -> Interp:
             env[k] = boot.eval(v, {})
         except (IUnsupported, Raised, Exception):
             continue
+    if funcs:
+        _bind_helpers(env, funcs, [funcs[f] for f in (P2S, S2P) if f in funcs])
     return Interp(env, hooks={"Version": _model_version, "re.compile": mk_regex})
 
 
@@ -278,13 +357,16 @@ def _call(ip: Interp, fn: ast.AST, arg: str):
         return ip.call_function(fn, {fn.args.args[0].arg: arg})
     except Raised as r:
         return f"<raises {r.name}>"
+    except TypeError:
+        # the interpreted program itself misuses a value (e.g. unpacks `None`): at run time this is a TypeError of the converter
+        return "<raises TypeError>"
     except IUnsupported as e:
         raise AnchorError(f"C34: `{fn.name}` uses a construct absint does not model: {e}")
 
 
 def finite_roundtrips(funcs: dict[str, ast.AST], consts: dict[str, ast.AST]) -> tuple[dict, dict, int]:
     """failures of pep440->semver->pep440 per release length, failures of semver->pep440->semver, cases evaluated."""
-    ip = _interp(consts)
+    ip = _interp(consts, funcs)
     p2s, s2p = funcs[P2S], funcs[S2P]
     vals = (0, 7, 10)
     pres = (None, ("a", 0), ("a", 4), ("b", 1), ("rc", 2), ("rc", 10))
@@ -319,8 +401,8 @@ def finite_roundtrips(funcs: dict[str, ast.AST], consts: dict[str, ast.AST]) -> 
     return fail_p, {"semver": fail_s}, cases
 
 
-def classify_all(fn: ast.AST) -> tuple[int, list[str], dict]:
-    ip = Interp({}, hooks={"Version": _model_version})
+def classify_all(fn: ast.AST, funcs: dict[str, ast.AST] | None = None) -> tuple[int, list[str], dict]:
+    ip = Interp(_bind_helpers({}, funcs or {}, [fn]), hooks={"Version": _model_version})
     rels = [r for n in LENGTHS for r in itertools.product((0, 1), repeat=n)]
     pres = (None, ("rc", 1), ("rc", 2))
     versions = [(r, p) for r in rels for p in pres]
@@ -339,6 +421,8 @@ def classify_all(fn: ast.AST) -> tuple[int, list[str], dict]:
                 got = ip.call_function(fn, {params[0]: cs, params[1]: ps})
             except Raised as r:
                 got = f"<raises {r.name}>"
+            except TypeError:
+                got = "<raises TypeError>"
             except IUnsupported as e:
                 raise AnchorError(f"C34.R2: `{fn.name}` uses a construct absint does not model: {e}")
             c, p = models[i], models[j]
@@ -370,9 +454,20 @@ def eval_rules(funcs: dict[str, ast.AST], consts: dict[str, ast.AST], vfuncs: di
         w_rel, exc2 = sym.run(sym.p2s, UNKNOWN, n, False)
         if exc or exc2:
             problems.append(f"pep440_to_semver can raise {sorted(set(exc + exc2))}")
-        for kind, w in (("pre-release", w_pre), ("final", w_rel)):
+        silent = False
+        for kind, w, ex in (("pre-release", w_pre, exc), ("final", w_rel, exc2)):
             if w.is_empty():
-                raise AnchorError(f"C34.R1: pep440_to_semver returns nothing for a {kind} version of length {n}")
+                if not ex:
+                    raise AnchorError(f"C34.R1: pep440_to_semver returns nothing for a {kind} version of length {n}")
+                problems.append(f"every {kind} version of length {n} makes pep440_to_semver raise {sorted(set(ex))}")
+                silent = True
+        if silent:  # nothing to hand to the reader: the writer already fails
+            ff = [x for x in fail_p[n]]
+            if ff:
+                problems.append(f"finite round trip fails for {len(ff)} of the evaluated versions, e.g. {'; '.join(ff[:3])}")
+            yield ("ob", "C34.R1", f"pep440->semver->pep440:release-len={n}", f"PEP 440 versions with {n} release component(s) survive the round trip through semver",
+                   False, sym.p2s, "; ".join(problems))
+            continue
         # the reader on what the writer emits
         sym.reader_pattern = None
         o_pre, rexc = sym.run(sym.s2p, AStr(w_pre), None, None)
@@ -422,7 +517,7 @@ def eval_rules(funcs: dict[str, ast.AST], consts: dict[str, ast.AST], vfuncs: di
     # ---------------- R2
     if DCT not in vfuncs:
         raise AnchorError(f"function `{DCT}` not found")
-    n, bad, undefined = classify_all(vfuncs[DCT])
+    n, bad, undefined = classify_all(vfuncs[DCT], vfuncs)
     yield ("ob", "C34.R2", "classification", f"detect_change_type is 'none' iff not greater, else names the first differing leading component — all {n} ordered pairs of the domain", not bad, vfuncs[DCT],
            f"{len(bad)} pairs wrong, e.g. " + "; ".join(bad[:3]))
     yield ("info", "classification_pairs", n)
@@ -481,6 +576,14 @@ _REL = "(\\d+(?:\\.\\d+)*)"
 _JOIN = 'base = ".".join(str(x) for x in v.release)'
 _MAJ = '    if current_release[0] > previous_release[0]:\n        return "major"\n'
 _MIN = '    if current_release[1] > previous_release[1]:\n        return "minor"\n'
+_P2S_BODY = '    v = Version(version)\n    base = ".".join(str(x) for x in v.release)\n    if v.pre is None:\n        return base\n\n    label, num = v.pre\n    return f"{base}-{label}.{num}"\n'
+_S2P_BODY = ('    match = _SEMVER_PRERELEASE_RE.match(version)\n    if not match:\n        return version\n\n    base, label, num = match.groups()\n    if label not in _PEP440_LABELS:\n        raise ValueError(\n'
+             '            f"Unsupported pre-release label \'{label}\' in version \'{version}\'. "\n            f"Use a PEP 440 label: {\', \'.join(sorted(_PEP440_LABELS))}"\n        )\n    return f"{base}{label}{num}"\n')
+_DCT_HEAD = ('def detect_change_type(current_version: str, previous_version: str | None) -> str:\n    """Return the semantic change classification between two versions."""\n    if not previous_version:\n        return "major"\n\n'
+             '    current = Version(current_version)\n    previous = Version(previous_version)\n\n    if current <= previous:\n        return "none"\n\n')
+_DCT_REL = '    current_release = (current.release + (0, 0, 0))[:3]\n    previous_release = (previous.release + (0, 0, 0))[:3]\n\n'
+_DCT_UNPACK = '    cur_major, cur_minor, cur_patch = _padded_release(current)\n    prev_major, prev_minor, prev_patch = _padded_release(previous)\n    current_release = (cur_major, cur_minor, cur_patch)\n    previous_release = (prev_major, prev_minor, prev_patch)\n\n'
+_PAD_HELPER = 'def _padded_release(version: Version) -> tuple[int, ...]:\n    return (version.release + (0, 0, 0))[:3]\n\n\n'
 TWINS: list[Twin] = [
     # ---- R1 breaking
     Twin("regex wants two components", _CH, _RX, _RX.replace(_REL, "(\\d+\\.\\d+)"), "C34.R1"),
@@ -504,13 +607,30 @@ TWINS: list[Twin] = [
     Twin("benign: truthiness of pre", _CH, "    if v.pre is None:\n        return base", "    if not v.pre:\n        return base", None),
     Twin("benign: base_version (epoch-free release string)", _CH, _JOIN, "base = v.base_version", None),
     Twin("benign: major used for the first component only", _CH, _JOIN, 'base = ".".join(str(x) for x in (v.major,) + v.release[1:])', None),
+    # ---- R1: statement forms of the same converters (accumulator loop for the generator, inverted / early-return branches)
+    Twin("benign: release joined from an accumulator loop, pre branch inverted", _CH, _P2S_BODY,
+         '    parsed = Version(version)\n    release_parts: list[str] = []\n    for component in parsed.release:\n        release_parts.append(str(component))\n    base = ".".join(release_parts)\n\n    pre = parsed.pre\n    if pre is not None:\n        label, num = pre\n        return f"{base}-{label}.{num}"\n    return base\n', None),
+    Twin("benign: accumulator filled with extend", _CH, _JOIN, 'parts: list[str] = []\n    parts.extend(str(x) for x in v.release)\n    base = ".".join(parts)', None),
+    Twin("benign: reader with `is None`, positive label branch returns early, label list computed on the raising path", _CH, _S2P_BODY,
+         '    prerelease_match = _SEMVER_PRERELEASE_RE.match(version)\n    if prerelease_match is None:\n        return version\n\n    base, label, num = prerelease_match.groups()\n    if label in _PEP440_LABELS:\n        return f"{base}{label}{num}"\n\n    supported_labels = ", ".join(sorted(_PEP440_LABELS))\n    raise ValueError(f"Unsupported pre-release label \'{label}\' in version \'{version}\'. Use a PEP 440 label: {supported_labels}")\n', None),
+    Twin("accumulator loop walks a truncated release", _CH, _JOIN, 'parts: list[str] = []\n    for x in v.release[:3]:\n        parts.append(str(x))\n    base = ".".join(parts)', "C34.R1"),
+    Twin("accumulator loop appends the component twice", _CH, _JOIN, 'parts: list[str] = []\n    for x in v.release:\n        parts.append(str(x))\n        parts.append(str(x))\n    base = ".".join(parts)', "C34.R1"),
+    Twin("accumulator seeded with a leading element", _CH, _JOIN, 'parts: list[str] = ["0"]\n    for x in v.release:\n        parts.append(str(x))\n    base = ".".join(parts)', "C34.R1"),
+    Twin("inverted pre branch keeps the old arms (final gets a suffix path, pre-release loses it)", _CH, "    if v.pre is None:\n        return base\n", "    if v.pre is not None:\n        return base\n", "C34.R1"),
+    Twin("label guard inverted without swapping the arms", _CH, "    if label not in _PEP440_LABELS:\n", "    if label in _PEP440_LABELS:\n", "C34.R1"),
     # ---- R2 breaking
+    Twin("padding helper pads too little for the 3-way unpacking", _VE, _DCT_HEAD + _DCT_REL,
+         _PAD_HELPER.replace("(0, 0, 0)", "(0,)") + _DCT_HEAD + _DCT_UNPACK, "C34.R2"),
+    Twin("reversed comparisons with the operands left in place", _VE, _MAJ, '    if current_release[0] < previous_release[0]:\n        return "major"\n', "C34.R2"),
     Twin("equal versions are a change", _VE, "    if current <= previous:", "    if current < previous:", "C34.R2"),
     Twin("minor test not strict", _VE, "current_release[1] > previous_release[1]", "current_release[1] >= previous_release[1]", "C34.R2"),
     Twin("short padding", _VE, "current_release = (current.release + (0, 0, 0))[:3]", "current_release = (current.release + (0,))[:3]", "C34.R2"),
     Twin("minor tested before major", _VE, _MAJ + _MIN, _MIN + _MAJ, "C34.R2"),
     Twin("ordering on the raw strings", _VE, "    if current <= previous:", "    if current_version <= previous_version:", "C34.R2"),
     # ---- R2 benign
+    Twin("benign: padding extracted into a helper, components unpacked, comparisons reversed", _VE, _DCT_HEAD + _DCT_REL + _MAJ + _MIN,
+         _PAD_HELPER + _DCT_HEAD.replace("if current <= previous:", "if not (current > previous):") + _DCT_UNPACK
+         + '    if prev_major < cur_major:\n        return "major"\n    if prev_minor < cur_minor:\n        return "minor"\n', None),
     Twin("benign: negated greater", _VE, "    if current <= previous:", "    if not current > previous:", None),
     Twin("benign: reversed comparison", _VE, "current_release[0] > previous_release[0]", "previous_release[0] < current_release[0]", None),
     Twin("benign: elif chain", _VE, '        return "major"\n    if current_release[1]', '        return "major"\n    elif current_release[1]', None),
